@@ -28,6 +28,7 @@ FUNCTIONS = [("thejoker/utils.py", "_pytensor_get_mean_std"), ("thejoker/samples
              ("thejoker/utils.py", "read_batch_slice"), ("thejoker/utils.py", "read_batch_idx"), ("thejoker/utils.py", "table_header_to_units"),
              ("thejoker/multiproc_helpers.py", "marginal_ln_likelihood_worker"), ("thejoker/multiproc_helpers.py", "make_full_samples_worker"),
              ("thejoker/multiproc_helpers.py", "rejection_sample_helper"), ("thejoker/thejoker.py", "TheJoker.marginal_ln_likelihood")]
+PYX_FUNCTIONS = ['CJokerHelper.__init__', 'CJokerHelper.batch_marginal_ln_likelihood']
 ASSUMPTIONS = [
     "units are multiplicative (dimension vector + positive scale); astropy's conversion tables and non-multiplicative units are outside",
     "ln N(y|.) under y -> c y shifts by n ln c (scaling of the Gaussian density): trusted lemma linking 'numbers entering the kernel are physical/internal-unit' to the property's stated consequences",
